@@ -13,6 +13,11 @@ VARIABLE pending
 
 Kinds == {"apply", "apply", "batch", "compact", "restart", "interrupt"}
 
+\* one request: first its kind (uniformly among the kinds that have instances), then one instance - so that a
+\* kind with many instances (config publishes) does not crowd out the others.  RandomElement is TLC's.
+ReqKinds == {r.t : r \in Requests}
+Pick == LET t == RandomElement(ReqKinds) IN RandomElement({r \in Requests : r.t = t})
+
 SimInit == Init /\ pending = "none"
 
 SimNext ==
@@ -20,8 +25,8 @@ SimNext ==
        \* (the last step of every generated behaviour is a restart: one successor, one export)
        /\ \E k \in (IF ops = MaxOps - 1 THEN {"restart"} ELSE {"apply", "batch", "compact", "restart", "interrupt"}) : pending' = k
        /\ UNCHANGED vars
-    \/ /\ pending = "apply" /\ pending' = "none" /\ \E r \in Requests : Apply(r)
-    \/ /\ pending = "batch" /\ pending' = "none" /\ \E r1 \in Requests, r2 \in Requests : ApplyBatch(r1, r2)
+    \/ /\ pending = "apply" /\ pending' = "none" /\ Apply(Pick)
+    \/ /\ pending = "batch" /\ pending' = "none" /\ ApplyBatch(Pick, Pick)
     \/ /\ pending = "compact" /\ pending' = "none" /\ Compact
     \/ /\ pending = "restart" /\ pending' = "none" /\ Restart
     \/ /\ pending = "interrupt" /\ pending' = "none" /\ InterruptSnap
